@@ -525,3 +525,65 @@ def r7(R):
     R.require(seen[0] or vs, '_register no longer joins the transaction')
     for v in vs:
         R.violation(v.node, v.message, g, v.path)
+
+
+# ------------------------------------------------------------------ C11.R8
+@rule('C11.R8', 'the record of created objects is forgotten only after they '
+      'were dealt with: never on a failing path of a commit-phase method '
+      '(tpc_abort still has to disown them)', min_instances=4)
+def r8(R):
+    conn = R.prog.cls(CONN)
+    n = 0
+    for meth in ('tpc_begin', 'commit', 'tpc_vote', 'tpc_finish'):
+        f = R.method(conn, meth)
+        g, b, F = R.cfg(f, conn, max_depth=0)
+        n += 1
+        R.instance('Connection.%s' % meth)
+
+        def forgets(node, F=F):
+            for op in F.ops(node):
+                if op.kind == 'call' and (path_is(
+                        op.path, ('self', '_tpc_cleanup')) or path_is(
+                            op.path, ('self', '_creating', 'clear'))):
+                    return True
+                if op.kind == 'store' and path_is(
+                        op.path, ('self', '_creating')):
+                    return True
+            return False
+
+        def edge(node, st, lab, tgt, F=F):
+            failed, handled, forgot = st
+            if lab in ('e', 'eb'):
+                failed = True
+            if lab not in ('e', 'eb'):
+                for op in F.ops(node):
+                    if op.kind == 'call' and op.path and op.path[-1] in (
+                            '_invalidate_creating',):
+                        handled = True
+                if failed and not handled and forgets(node) and \
+                        forgot is None:
+                    forgot = node.id
+            return (failed, handled, forgot)
+
+        def at(node, st, meth=meth, g=g):
+            failed, handled, forgot = st
+            # the method fails (leaves by the exception exit) having
+            # forgotten the created objects after the first exception
+            if node.id == g.exit_raise and forgot is not None:
+                return Violation(
+                    'Connection.%s forgets the created objects '
+                    '(_tpc_cleanup / _creating cleared) while it is failing: '
+                    'the transaction manager calls tpc_abort next, which '
+                    'then finds nothing to disown -- objects created by the '
+                    'failed commit keep _p_jar/_p_oid and a later reference '
+                    'to them is committed dangling' % meth)
+            return st
+
+        # only paths that leave by the exception exit count (a handler
+        # that recovers and returns normally is not a failing commit)
+        vs, stats = explore(g, (False, False, None), at=at, edge=edge)
+        R.count(stats)
+        for v in vs:
+            where = [g.nodes[i] for i in v.path if forgets(g.nodes[i])]
+            R.violation(where[-1] if where else v.node, v.message, g, v.path)
+    R.require(n >= 4, 'commit-phase methods not found')
